@@ -272,11 +272,125 @@ func checkChannels(c *fw.Case, root *model.Root) {
 		c.Eval(1)
 		var s string
 		if c.GuardFail("string", "String()", func() { s = qf.String() }) {
-			if want := expectedString(sh); s != want {
-				c.Fail("string", "String() differs from the layout recomputed from the views:\n--- got\n%s\n--- want\n%s", clip(s, 1500), clip(want, 1500))
+			if msg := checkStringLayout(s, sh); msg != "" {
+				c.Fail("string:"+firstWord(msg), "String(): %s\n--- got\n%s\n--- layout recomputed from the views\n%s", msg, clip(s, 1500), clip(expectedString(sh), 1500))
 			}
 		}
 	}
+}
+
+// checkStringLayout checks String() structurally: a header line, a line of dashes that fixes the column widths,
+// one fixed-width line per row (at most 50) whose fields are the right-aligned cell texts (or their first
+// width-3 bytes followed by "..."), the truncation marker when there are more than 50 rows and the Dims line.
+// Widths, header text and padding policy are taken from the output itself, so cosmetic changes do not alarm.
+func checkStringLayout(out string, sh *model.Frame) string {
+	n := sh.Len()
+	dims := fmt.Sprintf("\nDims = %d x %d", len(sh.Cols), n)
+	if !strings.HasSuffix(out, dims) {
+		return fmt.Sprintf("dims: output does not end with %q", dims)
+	}
+	body := strings.TrimSuffix(out, dims)
+	nl1 := strings.IndexByte(body, '\n')
+	if nl1 < 0 {
+		return "structure: no header line"
+	}
+	rest := body[nl1+1:]
+	nl2 := strings.IndexByte(rest, '\n')
+	if nl2 < 0 {
+		return "structure: no separator line"
+	}
+	dashes := rest[:nl2]
+	rest = rest[nl2+1:]
+	var widths []int
+	if len(sh.Cols) > 0 {
+		for _, g := range strings.Split(dashes, " ") {
+			if g == "" || strings.Trim(g, "-") != "" {
+				return fmt.Sprintf("structure: separator line %q is not made of dash groups", dashes)
+			}
+			widths = append(widths, len(g))
+		}
+	}
+	if len(widths) != len(sh.Cols) {
+		return fmt.Sprintf("columns: %d dash groups for %d columns", len(widths), len(sh.Cols))
+	}
+	header := body[:nl1]
+	pos := 0
+	for i, col := range sh.Cols {
+		if pos+widths[i] > len(header) {
+			return "structure: header shorter than the separator"
+		}
+		if !strings.Contains(header[pos:pos+widths[i]], col.Name[:minI(len(col.Name), 1)]) {
+			return fmt.Sprintf("header: field %d %q does not mention column %q", i, header[pos:pos+widths[i]], col.Name)
+		}
+		pos += widths[i] + 1
+	}
+	rowLen := len(widths) - 1
+	for _, w := range widths {
+		rowLen += w
+	}
+	shown := n
+	if shown > 50 {
+		shown = 50
+	}
+	for r := 0; r < shown; r++ {
+		if len(rest) < rowLen+1 {
+			return fmt.Sprintf("rows: output ends before row %d", r)
+		}
+		line := rest[:rowLen]
+		if rest[rowLen] != '\n' {
+			return fmt.Sprintf("rows: row %d is not %d bytes wide", r, rowLen)
+		}
+		rest = rest[rowLen+1:]
+		pos := 0
+		for i, col := range sh.Cols {
+			field := line[pos : pos+widths[i]]
+			pos += widths[i] + 1
+			var txt string
+			switch col.Kind {
+			case model.KInt:
+				txt = strconv.Itoa(col.I[r])
+			case model.KFloat:
+				if math.IsNaN(col.F[r]) {
+					txt = "null"
+				} else {
+					txt = strconv.FormatFloat(col.F[r], 'f', -1, 64)
+				}
+			case model.KBool:
+				txt = strconv.FormatBool(col.B[r])
+			default:
+				if col.S[r] == nil {
+					txt = "null"
+				} else {
+					txt = *col.S[r]
+				}
+			}
+			w := widths[i]
+			ok := false
+			if len(txt) <= w {
+				ok = strings.HasSuffix(field, txt) && strings.TrimLeft(field[:w-len(txt)], " ") == ""
+			} else if w >= 3 {
+				ok = field == txt[:w-3]+"..."
+			}
+			if !ok {
+				return fmt.Sprintf("cell: row %d column %q is printed as %q, the view holds %s", r, col.Name, field, col.CellString(r))
+			}
+		}
+	}
+	marker := strings.Contains(rest, "truncated")
+	if n > 50 && !marker {
+		return "truncation: more than 50 rows but no truncation marker"
+	}
+	if n <= 50 && strings.TrimSpace(rest) != "" {
+		return fmt.Sprintf("rows: unexpected text after the last row: %q", clip(rest, 80))
+	}
+	return ""
+}
+
+func minI(a, b int) int {
+	if a < b {
+		return a
+	}
+	return b
 }
 
 func clip(s string, n int) string {
